@@ -35,6 +35,7 @@
 (*     missing, a property failing with AttributeError, not a dict) plus   *)
 (*     "family" = its own family or else the CLASS NAME OF THAT LEARNER;   *)
 (*     full_name = family(k=v,...) over the other params in their order.   *)
+(*     (nest: a wrapper of a wrapper is the wrapper of the object itself.) *)
 (*  "env"  SafeEnvironment.params / str / read (23-48): own params plus    *)
 (*     "env_type" = own or else the class name of the environment (of its  *)
 (*     first pipe when it is a pipeline); read passes through.             *)
@@ -86,10 +87,11 @@ OwnE == { <<>>, <<pa>>, << <<"env_type", "T">> >>, << pa, <<"env_type", "T">> >>
 OwnV == { <<>>, <<pa>> }
 
 (* ------------------------------------------------------------------ shapes *)
-LShapes == { [pk |-> "absent", own |-> <<>>, share |-> FALSE, nd |-> ""], [pk |-> "attrerr", own |-> <<>>, share |-> FALSE, nd |-> ""],
-             [pk |-> "nondict", own |-> <<>>, share |-> FALSE, nd |-> "abc"], [pk |-> "nondict", own |-> <<>>, share |-> FALSE, nd |-> "None"] }
-           \cup { [pk |-> k, own |-> o, share |-> FALSE, nd |-> ""] : k \in {"attr", "prop", "method"}, o \in OwnL }
-           \cup { [pk |-> "attr", own |-> o, share |-> TRUE, nd |-> ""] : o \in OwnL }
+LShapes == { [pk |-> "absent", own |-> <<>>, share |-> FALSE, nd |-> "", nest |-> n] : n \in BOOLEAN }
+           \cup { [pk |-> "attrerr", own |-> <<>>, share |-> FALSE, nd |-> "", nest |-> FALSE] }
+           \cup { [pk |-> "nondict", own |-> <<>>, share |-> FALSE, nd |-> x, nest |-> FALSE] : x \in {"abc", "None"} }
+           \cup { [pk |-> k, own |-> o, share |-> FALSE, nd |-> "", nest |-> n] : k \in {"attr", "prop", "method"}, o \in OwnL, n \in BOOLEAN }
+           \cup { [pk |-> "attr", own |-> o, share |-> TRUE, nd |-> "", nest |-> FALSE] : o \in OwnL }
 EShapes == { [pk |-> "absent", own |-> <<>>, share |-> FALSE, idx |-> i, nest |-> FALSE] : i \in {"plain", "pipe"} }
            \cup { [pk |-> k, own |-> o, share |-> FALSE, idx |-> i, nest |-> FALSE] : k \in {"attr", "prop"}, o \in OwnE, i \in {"plain", "pipe"} }
            \cup { [pk |-> "mapping", own |-> o, share |-> FALSE, idx |-> "plain", nest |-> FALSE] : o \in OwnE }      \* (a pipeline demands dict params of its members itself)
